@@ -201,4 +201,23 @@ StdView == <<input, phase, added, mods, reg, IF Terminal THEN {} ELSE start, IF 
 Accepted == phase = "done"
 Rejected == phase = "failed"
 
+(***************************************************************************)
+(* Refinement: the machine above implements the abstract worklist loop of  *)
+(* LoopAbs.tla (attempts inside a pass are stuttering steps of it), whose  *)
+(* pass bound is proved for worklists of any size in LoopAbsProofs.tla.    *)
+(* TLC checks `RefinesLoopAbs` as a property in the graph configurations.  *)
+(***************************************************************************)
+LA == INSTANCE LoopAbs WITH
+        X  <- 2,
+        U  <- IF phase = "pass" \/ (phase = "failed" /\ err = "nonterm") THEN start ELSE {},
+        st <- CASE phase = "adding" -> "load"
+                [] phase = "pass"   -> "run"
+                [] phase = "failed" -> "failed"
+                [] OTHER            -> "after",
+        n  <- Len(hist),
+        x  <- aux.extra,
+        c0 <- IF hist = <<>> THEN 0 ELSE Cardinality(hist[1].s)
+
+RefinesLoopAbs == LA!ASpec
+LoopAbsInv == LA!AInv /\ LA!PassBound
 =============================================================================
